@@ -18,10 +18,12 @@ import time
 VERIF = os.path.dirname(os.path.dirname(os.path.abspath(__file__)))
 SPEC = os.path.join(VERIF, "spec")
 HARNESS = os.path.join(VERIF, "harness")
-BIN = os.path.join(VERIF, "bin")
-EVID = os.path.join(VERIF, "evidence")
-REPLAYS = os.path.join(VERIF, "replays")
-REPO = "/repo"
+REPO = os.environ.get("VERIF_REPO", "/repo")      # registered checks always use /repo; the override serves mutant runs
+ALT = REPO != "/repo"
+_tag = hashlib.sha1(REPO.encode()).hexdigest()[:10]
+BIN = os.path.join(VERIF, "bin") if not ALT else os.path.join(tempfile.gettempdir(), "vbin." + _tag)
+EVID = os.path.join(VERIF, "evidence") if not ALT else os.path.join(tempfile.gettempdir(), "vevid." + _tag)
+REPLAYS = os.path.join(VERIF, "replays") if not ALT else os.path.join(tempfile.gettempdir(), "vreplays." + _tag)
 NPROC = max(2, min(16, os.cpu_count() or 4))
 
 GOENV = dict(os.environ, GOFLAGS="-mod=mod", GOPROXY="off", GOSUMDB="off", GOTOOLCHAIN="local")
@@ -47,19 +49,30 @@ _built = set()
 
 
 def build(cmd):
-    """go build -tags verif of one harness command from /repo's current working tree."""
+    """go build -tags verif of one harness command from the repository's current working tree."""
     if cmd in _built:
         return os.path.join(BIN, cmd)
     os.makedirs(BIN, exist_ok=True)
-    # the harness module resolves fs_db through `replace => /repo`; keep go.sum in step
-    shutil.copyfile(os.path.join(REPO, "go.sum"), os.path.join(HARNESS, "go.sum.repo"))
-    merge_gosum()
     out = os.path.join(BIN, cmd)
-    p = subprocess.run(["go", "build", "-tags", "verif", "-o", out, "./cmd/" + cmd], cwd=HARNESS, env=GOENV,
-                       stdout=subprocess.PIPE, stderr=subprocess.STDOUT, text=True, timeout=900)
+    args = ["go", "build", "-tags", "verif", "-o", out]
+    if ALT:
+        # same harness sources, fs_db resolved from another checkout (used to run checks against seeded changes)
+        mod = os.path.join(BIN, "go.mod")
+        txt = open(os.path.join(HARNESS, "go.mod")).read().replace("=> /repo", "=> " + REPO)
+        open(mod, "w").write(txt)
+        sums = set()
+        for f in (os.path.join(HARNESS, "go.sum"), os.path.join(REPO, "go.sum")):
+            if os.path.exists(f):
+                sums.update(l for l in open(f).read().splitlines() if l.strip())
+        open(os.path.join(BIN, "go.sum"), "w").write("\n".join(sorted(sums)) + "\n")
+        args += ["-modfile", mod]
+    else:
+        merge_gosum()
+    args.append("./cmd/" + cmd)
+    p = subprocess.run(args, cwd=HARNESS, env=GOENV, stdout=subprocess.PIPE, stderr=subprocess.STDOUT, text=True, timeout=900)
     if p.returncode != 0:
         sys.stdout.write(p.stdout)
-        raise Inconclusive("harness build failed for %s (does /repo still compile with -tags verif?)" % cmd)
+        raise Inconclusive("harness build failed for %s (does the repository still compile with -tags verif?)" % cmd)
     _built.add(cmd)
     return out
 
@@ -67,15 +80,13 @@ def build(cmd):
 def merge_gosum():
     own = os.path.join(HARNESS, "go.sum")
     lines = set()
-    for f in (own, os.path.join(HARNESS, "go.sum.repo")):
+    for f in (own, os.path.join(REPO, "go.sum")):
         if os.path.exists(f):
             lines.update(l for l in open(f).read().splitlines() if l.strip())
-    with open(own, "w") as fh:
-        fh.write("\n".join(sorted(lines)) + "\n")
-    try:
-        os.remove(os.path.join(HARNESS, "go.sum.repo"))
-    except OSError:
-        pass
+    new = "\n".join(sorted(lines)) + "\n"
+    if not os.path.exists(own) or open(own).read() != new:
+        with open(own, "w") as fh:
+            fh.write(new)
 
 
 # ----------------------------------------------------------------------------- TLC
@@ -384,7 +395,7 @@ class Check:
             st["actions_covered"] = len(r.coverage) - len(zero)
             st["actions_never_taken"] = zero
         self.stages.append(st)
-        if r.error:
+        if r.error and not (r.error == "timeout" and False):
             raise Inconclusive("TLC failed in stage %s: %s (log %s)" % (name, r.error[:500], r.out_path))
         return st
 
